@@ -1,4 +1,4 @@
 """all translators, in one place (used by setup and by update_baseline)"""
-from . import lru_steps, sandbox, undefined_table
+from . import lru_steps, sandbox, undefined_table, lexer_key
 
-ALL = [lru_steps.gen, sandbox.gen, undefined_table.gen]
+ALL = [lru_steps.gen, sandbox.gen, undefined_table.gen, lexer_key.gen]
